@@ -115,6 +115,51 @@ def symstr_eq_term(a, b):
     return z3.And(parts) if parts else z3.BoolVal(True)
 
 
+def block_inputs(sym_inputs, model):
+    """z3 Bool excluding exactly the concrete input the model describes (None if the inputs have no symbolic part)"""
+    from symrun.values import SymInt, SymBool
+    from symrun.strings import SymStr, Cell
+    parts = []
+    for v in sym_inputs.values():
+        if isinstance(v, SymInt):
+            parts.append(v.term != model.eval(v.term, model_completion=True))
+        elif isinstance(v, SymBool):
+            parts.append(v.term != model.eval(v.term, model_completion=True))
+        elif isinstance(v, SymStr):
+            for c in v.cells:
+                if isinstance(c, Cell):
+                    parts.append(c.var != model.eval(c.var, model_completion=True))
+    return z3.Or(parts) if parts else None
+
+
+_KNOWN = None
+
+
+def _known_matcher():
+    """matcher over known_findings.json usable inside pool workers (same rule as Check.match_known)"""
+    global _KNOWN
+    if _KNOWN is None:
+        _KNOWN = [k for k in core.load_known_findings() if k.get('status') == 'known']
+    import re as _re
+
+    def match(rec):
+        for k in _KNOWN:
+            m = k['match']
+            if m.get('func') and m['func'] != rec.get('func'):
+                continue
+            if m.get('kind') and m['kind'] != rec.get('kind'):
+                continue
+            if m.get('args_regex') and not _re.search(m['args_regex'], rec.get('args_text', '')):
+                continue
+            if m.get('label_regex') and not _re.search(m['label_regex'], rec.get('label', '')):
+                continue
+            if m.get('job_regex') and not _re.search(m['job_regex'], rec.get('job', '')):
+                continue
+            return k
+        return None
+    return match
+
+
 class PathFail(Exception):
     """raised by a harness body to end the path with a concretely decided violation"""
 
@@ -135,7 +180,9 @@ class Runner:
     """
 
     def __init__(self, res, plain, func, scripts, max_paths=4000, deadline=None, float_mode='R', int_bv=False,
-                 check_feasibility=True, witness_every=1, solver_name=None):
+                 check_feasibility=True, witness_every=1, solver_name=None, r_axioms=None):
+        self.r_axioms = r_axioms
+        self.known_matcher = _known_matcher()
         self.res = res
         self.plain = plain
         self.func = func
@@ -153,6 +200,9 @@ class Runner:
         eng = E.Engine(max_paths=self.max_paths, deadline=self.deadline, float_mode=self.float_mode,
                        int_bv=self.int_bv, check_feasibility=self.check_feasibility)
         self.eng = eng
+        if self.r_axioms is not None:
+            eng.r_axioms = self.r_axioms
+        eng.fallback = self.float_mode == 'R'
         res = self.res
         state = {'out': None}
 
@@ -196,8 +246,38 @@ class Runner:
                 elif ob.status == 'unsat':
                     res.discharged += 1
                 elif ob.status == 'sat':
-                    ins = {k: conc(ob.model, v) for k, v in (out or {}).get('inputs', {}).items()}
-                    self._counterexample(job_label, ob.label, ins, str(ob.info or ''))
+                    sym_inputs = (out or {}).get('inputs', {})
+                    model = ob.model
+                    blocks = []
+                    for attempt in range(60):
+                        ins = {k: conc(model, v) for k, v in sym_inputs.items()}
+                        verdict = self._counterexample(job_label, ob.label, ins, str(ob.info or ''), quiet=(eng.float_mode == 'R'))
+                        if verdict == 'violation':
+                            break
+                        if verdict == 'spurious':
+                            # reals-with-rounding over-approximates doubles: a model that does not reproduce is excluded and
+                            # another one requested; only if none reproduces the obligation stays inconclusive
+                            if attempt >= 30:
+                                res.inconclusive.append('%s: 30 candidate counterexamples for %s did not reproduce (float abstraction too coarse)' % (job_label, ob.label))
+                                break
+                        # a recorded known finding: exclude exactly this input and ask again, so that any other
+                        # violation of the same clause on this path is still found
+                        b = block_inputs(sym_inputs, model)
+                        if b is None:
+                            res.inconclusive.append('%s: cannot exclude the known counterexample of %s' % (job_label, ob.label))
+                            break
+                        blocks.append(b)
+                        r, model = eng.resolve(ob, blocks)
+                        if r == 'unsat':
+                            res.discharged += 1
+                            key = 'obligations_discharged_modulo_known_findings' if verdict == 'known' else 'obligations_discharged_after_excluding_spurious_models'
+                            res.extra[key] = res.extra.get(key, 0) + 1
+                            break
+                        if r != 'sat':
+                            res.inconclusive.append('%s: obligation %s after excluding a known finding: solver %s' % (job_label, ob.label, r))
+                            break
+                    else:
+                        res.inconclusive.append('%s: more than 60 known-finding counterexamples for %s on one path' % (job_label, ob.label))
                 else:
                     res.inconclusive.append('%s: obligation %s: solver %s' % (job_label, ob.label, ob.status))
             for (label, detail) in fails:
@@ -213,6 +293,8 @@ class Runner:
         eng.explore(fn, on_path)
         res.paths += eng.n_paths
         res.add_query(self.solver_name, eng.n_solver_calls, eng.solver_time)
+        if eng.n_fallback_calls:
+            res.add_query('cvc5-binary(fallback after z3 unknown)', eng.n_fallback_calls, 0.0)
         return eng
 
     def fail(self, label, detail=''):
@@ -246,7 +328,7 @@ class Runner:
             self.res.inconclusive.append('%s: ENCODING MISMATCH on witness %s: %s -> symbolic %s, real %s' % (
                 job_label, inputs, expr, want, got.get('repr') if got['ok'] else 'raises ' + got['exc']))
 
-    def _counterexample(self, job_label, label, inputs, detail):
+    def _counterexample(self, job_label, label, inputs, detail, quiet=False):
         tmpl = self.scripts.get(label) or self.scripts.get(label.split(':')[0])
         args_text = ', '.join('%s=%r' % (k, v) for k, v in sorted(inputs.items()))
         if tmpl is None:
@@ -255,12 +337,19 @@ class Runner:
         script = tmpl.format(**{k: repr(v) for k, v in inputs.items()})
         code, out = self.plain.run_script(script)
         if code == 1:
-            self.res.records.append({'label': label, 'func': self.func, 'kind': label.split(':')[0], 'args_text': args_text,
-                                     'expected': detail or 'property clause %s' % label, 'observed': out.strip()[-300:],
-                                     'script': script, 'model': {k: repr(v) for k, v in inputs.items()}, 'job': job_label})
+            rec = {'label': label, 'func': self.func, 'kind': label.split(':')[0], 'args_text': args_text,
+                   'expected': detail or 'property clause %s' % label, 'observed': out.strip()[-300:],
+                   'script': script, 'model': {k: repr(v) for k, v in inputs.items()}, 'job': job_label}
+            self.res.records.append(rec)
+            if self.known_matcher is not None and self.known_matcher(rec) is not None:
+                return 'known'
+            return 'violation'
         else:
+            if quiet and code == 0:
+                return 'spurious'
             self.res.inconclusive.append('%s: counterexample for %s did not reproduce on the plain library (%s) [exit %s] %s' % (
                 job_label, label, args_text, code, out.strip()[-200:]))
+            return 'inconclusive'
 
 
 def _close(got, want_v):
